@@ -9,6 +9,7 @@ CONSTANTS
   MaxLife = 2
   MaxDims = 0
   MaxSteps = 0
+  MaxGen = 0
   EmitActs = {"Delete"}
   EmitRes = "any"
   EmitWhen = "always"
